@@ -810,6 +810,14 @@ def apply_rewrites(text, rewrites):
             if text.count(old) != 1:
                 raise Undecided(f"SUB anchor `{old[:40]}` occurs {text.count(old)} times")
             text = text.replace(old, new)
+        elif rw[0] == "SUBALL":  # declared regex substitution applied to EVERY match (none is fine: the code then reaches the verifier as it is)
+            import re as _re
+            def _rep(m, new=rw[2]):
+                rep = new
+                for gi in range(1, (m.lastindex or 0) + 1):
+                    rep = rep.replace("${%d}" % gi, m.group(gi) or "")
+                return rep
+            text = _re.sub(rw[1], _rep, text)
         elif rw[0] == "SUBRE":   # declared regex substitution (must match exactly once; groups may be reused in the replacement) -- reported in evidence
             import re as _re
             pat, new = rw[1], rw[2]
